@@ -311,6 +311,9 @@ def _minmax(is_max):
     def f(*args):
         if len(args) == 1:
             args = tuple(args[0])
+        if all(isinstance(a, int) and not isinstance(a, RInt) for a in args):
+            # only compile-time constants: folded with python semantics, the result is a plain constant again
+            return (max if is_max else min)(args)
         vals = [RInt.of(a) if not isinstance(a, RFix) else a for a in args]
         if isinstance(vals[0], RFix):
             best = vals[0]
